@@ -36,6 +36,7 @@ MODULES = {
     "atomic_c01": ("src/atomic64.rs", K / "atomic_c01.rs"),
     "counter_c01": ("src/counter.rs", K / "counter_c01.rs"),
     "gauge_c11": ("src/gauge.rs", K / "gauge_c11.rs"),
+    "counter_c12v": ("src/counter.rs", K / "counter_c12v.rs"),
 }
 
 CRATE_MODULES = {
@@ -157,11 +158,12 @@ PLAN = {
     "C12": dict(
         title="Local (unsync) metrics hand over exactly what they accumulated",
         level="proof",
-        modules=["counter_c01", "hist_c08", "hist_c03", "hist_c02", "hist_c18"],
+        maps=True,
+        modules=["counter_c01", "counter_c12v", "hist_c08", "hist_c03", "hist_c02", "hist_c18"],
         crate_modules=["__venv"],
         verus=["c01_rmw_fold.rs", "c03_history.rs"],
         functions=[],
-        assumptions=[A2, ENV, "ledger invariant 'shared = direct + sum of flushed batches' is proved per step from arbitrary states (sequential) and lifted to all histories by the Verus lemmas (sum_append / conservation); the local VECTOR forms (GenericLocalCounterVec, LocalHistogramVec: with_label_values cache, remove_label_values, clone, drop of the whole vector) are NOT under contract: a harness over one pre-populated child (kani/counter_c12v.rs, kept but not registered) ran into the 25-minute limit (entry API + closures + Arc clones); their children are the local metrics covered here and their cache is a map keyed by the C05 hash"],
+        assumptions=[A2, ENV, MAPS_ASSUMPTION, FMT_ASSUMPTION, "ledger invariant 'shared = direct + sum of flushed batches' is proved per step from arbitrary states (sequential) and lifted to all histories by the Verus lemmas (sum_append / conservation); of the local VECTOR forms only GenericLocalCounterVec::remove_label_values + flush are under contract (c12_local_counter_vec_remove: cache built field by field over the collections shim, one label, shared child present or already removed); with_label_values (entry API + closure), clone, drop of the whole vector and all of LocalHistogramVec are NOT: the whole-history harness over one pre-populated child (c12_local_counter_vec_ledger, tier off) ran into the 25-minute limit; their children are the local metrics covered here and their cache is a map keyed by the C05 hash"],
     ),
     "C17": dict(
         title="Fallible APIs report bad input as Err and do not panic",
@@ -319,7 +321,7 @@ LEVEL_TEXT = {
     "C09": "per-char classifiers as genuine kani::ensures contracts proved for every char; identifier validators on strings of <=4 chars with one arbitrary Unicode char; Desc::new acceptance <=> spec for one const + one variable label with names over all of ASCII; build_fq_name, check_bucket_label, Registry::new_custom validation on enumerated inputs",
     "C10": "bounded: sequential contract of every critical section of MetricVecCore from an arbitrary abstract map of <=2 children (keys complete over u64) + lock-discipline obligations from the lock shim's ghost state; linearizability by lock composition is an argument, schedules are not explored",
     "C11": "as C01 for gauges: one 64-bit store / one atomic add per operation (f64 and i64), sub = add of the negation, exact inversion for i64, discharged under arbitrary interference",
-    "C12": "ledger step obligations (local updates event-free, flush hands over exactly the pending batch once, reset/clear/clone/drop) from arbitrary states plus histories built only through public operations; Verus lemmas lift to all histories; local vector forms not under contract",
+    "C12": "ledger step obligations (local updates event-free, flush hands over exactly the pending batch once, reset/clear/clone/drop) from arbitrary states plus histories built only through public operations; Verus lemmas lift to all histories; of the local vector forms only LocalCounterVec removal+flush is under contract (bounded)",
     "C15": "bounded/enumerated: Desc.id / Desc.dim_hash equal FNV-1a of the framed streams (real hasher) for concrete descriptors incl. empty values, boundary shifts and unsorted variable labels; unbounded framing lemma; one const label only",
     "C16": "the accessor algebra of the exposition data model proved with the same harness text against BOTH data models (scalar fields complete over f64/u64/i64) + mechanical closure check that feature-independent code uses only contracted accessors",
     "C17": "bounded, as the property itself states: CBMC's reachable-panic obligations plus Err/Ok specs on the Result-returning entry points over invalid arguments (names, label cardinalities, bucket parameters over every f64, every MetricType)",
